@@ -25,7 +25,7 @@ import (
 func init() {
 	Registry["C08"] = &Check{
 		Scenarios: c08Scenarios,
-		Rule: "A handler of connection A blocked inside Parser.Load of a private dictionary (package dict is part of the instrumented build) while connection B receives. Two connections send requests no handler matches while nobody reads ErrorReports, then a handled one each. Two relay scenarios with a multistream (SCTP) connection B, forwarded to with Message.WriteTo and with the raw Conn.Write adaptor. Two relay scenarios: a handler of connection A blocks inside a Write to connection B (whose peer has stopped reading) while B keeps receiving - under a Server with and without ReadTimeout / WriteTimeout. In the blocked-handler mode (two of the six arrival patterns) an application goroutine polls ServeMux.ErrorReports() at every instant. Server.Serve on a scripted listener with two connections (both accepted, or one accepted and one attached with diam.NewConn); three requests per connection (re-auth, device-watchdog, capabilities-exchange, in that order) delivered as {one segment, one segment per message, split at the header/body border, first message in 10-byte pieces, first message one byte at a time}; instrumented handlers record enter/exit around a scheduling point and answer; variants: plain, and the first handler on connection A blocked for ever; in one arrival pattern the first handler of connection B requests CloseNotify (so the rest of B's messages pass through the reader switch); one arrival pattern runs on a zero Server{} (DefaultServeMux, default dictionary); every schedule up to preemption bound 3 (thorough 6). The environment is eager (all fragments queued before the server starts; a Read never crosses a fragment boundary), because the arrival instant of a fragment is unobservable to a per-connection single-threaded reader; what is explored is every interleaving of the accept loop, the per-connection readers and the handlers.",
+		Rule: "Run-time registrations at every instant of the dispatch of three messages (by name, by index, catch-all; the RWMutex shim gives a waiting writer precedence over new readers, as sync.RWMutex does). A handler of connection A blocked inside Parser.Load of a private dictionary (package dict is part of the instrumented build) while connection B receives. Two connections send requests no handler matches while nobody reads ErrorReports, then a handled one each. Two relay scenarios with a multistream (SCTP) connection B, forwarded to with Message.WriteTo and with the raw Conn.Write adaptor. Two relay scenarios: a handler of connection A blocks inside a Write to connection B (whose peer has stopped reading) while B keeps receiving - under a Server with and without ReadTimeout / WriteTimeout. In the blocked-handler mode (two of the six arrival patterns) an application goroutine polls ServeMux.ErrorReports() at every instant. Server.Serve on a scripted listener with two connections (both accepted, or one accepted and one attached with diam.NewConn); three requests per connection (re-auth, device-watchdog, capabilities-exchange, in that order) delivered as {one segment, one segment per message, split at the header/body border, first message in 10-byte pieces, first message one byte at a time}; instrumented handlers record enter/exit around a scheduling point and answer; variants: plain, and the first handler on connection A blocked for ever; in one arrival pattern the first handler of connection B requests CloseNotify (so the rest of B's messages pass through the reader switch); one arrival pattern runs on a zero Server{} (DefaultServeMux, default dictionary); every schedule up to preemption bound 3 (thorough 6). The environment is eager (all fragments queued before the server starts; a Read never crosses a fragment boundary), because the arrival instant of a fragment is unobservable to a per-connection single-threaded reader; what is explored is every interleaving of the accept loop, the per-connection readers and the handlers.",
 		Assume: []string{"data-race freedom between visible operations (audited separately with -race)"},
 		QuickBudget: 120, ThoroughBudget: 2400,
 	}
@@ -386,6 +386,7 @@ func c08Scenarios(tier string) []*Scenario {
 	out = append(out, c08RelayBlockedMulti(false, bound), c08RelayBlockedMulti(true, bound))
 	out = append(out, c08UnmatchedNoReader(bound))
 	out = append(out, c08HandlerLoadsDictionary(bound))
+	out = append(out, c08RegisterWhileDispatching(bound))
 	return out
 }
 
@@ -1300,4 +1301,59 @@ func c08HandlerLoadsDictionary(bound int) *Scenario {
 	}
 	return &Scenario{Name: "dispatch/handler-blocked-loading-a-private-dictionary", Body: body, Check: check, Bound: bound, Horizon: 10 * time.Second,
 		Outcome: func(s *vs.Sched) string { return fmt.Sprint(c08ld.handledB) }}
+}
+
+// c08RegisterWhileDispatching: an application goroutine registers handlers on the running ServeMux
+// (three registrations, at every possible instant) while a connection's messages are being
+// dispatched - by short name, by index and to the catch-all. Every message is handled, every
+// registration returns.
+var c08rw struct {
+	handled    []string
+	registered int
+}
+
+func c08RegisterWhileDispatching(bound int) *Scenario {
+	body := func() {
+		c08rw.handled, c08rw.registered = nil, 0
+		a := vnet.NewConn("A")
+		a.Pieces = 1
+		lis := vnet.NewListener()
+		mux := diam.NewServeMux()
+		mux.HandleFunc("DWR", func(c diam.Conn, m *diam.Message) { c08rw.handled = append(c08rw.handled, "name") })
+		mux.HandleIdx(diam.CommandIndex{AppID: 0, Code: 258, Request: true}, diam.HandlerFunc(func(c diam.Conn, m *diam.Message) { c08rw.handled = append(c08rw.handled, "index") }))
+		mux.HandleFunc("ALL", func(c diam.Conn, m *diam.Message) { c08rw.handled = append(c08rw.handled, "all") })
+		srv := &diam.Server{Handler: mux, Dict: dict.Default}
+		base := []refcodec.Node{ident(264, "c"), ident(296, "r")}
+		var all []byte
+		all = append(all, refcodec.EncodeMessage(refcodec.Header{Version: 1, Flags: 0x80, Code: 280, HbH: 1, E2E: 1}, base)...)
+		all = append(all, refcodec.EncodeMessage(refcodec.Header{Version: 1, Flags: 0x80, Code: 258, HbH: 1, E2E: 2}, base)...)
+		all = append(all, refcodec.EncodeMessage(refcodec.Header{Version: 1, Flags: 0x80, Code: 275, HbH: 1, E2E: 3}, base)...)
+		a.Deliver(all)
+		lis.Offer(vnet.AcceptItem{Conn: a})
+		vs.GoNamed("serve", false, func() { srv.Serve(lis) })
+		vs.GoNamed("app-register", true, func() {
+			for i, k := range []string{"STR", "ACR", "ASR"} {
+				_ = i
+				k := k
+				mux.HandleFunc(k, func(diam.Conn, *diam.Message) { c08rw.handled = append(c08rw.handled, "new-"+k) })
+				c08rw.registered++
+				vs.Yield("env")
+			}
+		})
+	}
+	check := func(s *vs.Sched) string {
+		var v []string
+		if got := fmt.Sprint(c08rw.handled); got != "[name index all]" && got != "[name index new-STR]" {
+			v = append(v, fmt.Sprintf("handlers that ran for DWR, RAR, STR-before-its-registration: %v, expected [name index all] or with the third handled by the new STR handler (library goroutines blocked: %v)", c08rw.handled, s.BlockedLib()))
+		}
+		if c08rw.registered != 3 {
+			v = append(v, fmt.Sprintf("%d of 3 run-time registrations returned", c08rw.registered))
+		}
+		for _, p := range s.Panics() {
+			v = append(v, "panic: "+p)
+		}
+		return strings.Join(v, " | ")
+	}
+	return &Scenario{Name: "dispatch/registration-at-run-time-while-dispatching", Body: body, Check: check, Bound: bound, Horizon: 10 * time.Second,
+		Outcome: func(s *vs.Sched) string { return fmt.Sprint(c08rw.handled, c08rw.registered) }}
 }
